@@ -269,6 +269,92 @@ pub fn random_regs(rng: &mut Rng) -> Regs {
 
 /// Execute one abstract instruction from an established state and return [reset, step] events.
 /// The line executed is whatever the real assembler emitted for the rendered source.
+/// Registers changed so that the first memory operand (bracketed or data label) of `ins` lies on the end of the
+/// 1 MB space: its first byte at FFFFFh, FFFFEh, 00000h (segment * 16 + offset = 100000h) or 00001h.  A base or
+/// index register is nudged to give the offset the right low nibble; the operand's segment register (override,
+/// SS for BP-based forms, DS otherwise) is then set to match.  Left alone when that is impossible.
+pub fn edge_place(ins: &Ins, regs: &Regs, k: u64) -> Regs {
+    let opnds: Vec<&Opnd> = match ins {
+        Ins::BinArith { dst, src, .. } | Ins::Logic { dst, src, .. } | Ins::Mov { dst, src, .. } | Ins::Lea { dst, src } => vec![dst, src],
+        Ins::Xchg { a, b, .. } => vec![a, b],
+        Ins::Not { dst, .. } | Ins::Shift { dst, .. } | Ins::UnArith { dst, .. } | Ins::Pop { dst } => vec![dst],
+        Ins::Push { src } => vec![src],
+        _ => vec![],
+    };
+    let mut r = *regs;
+    let target: u32 = [0xFFFFFu32, 0xFFFFE, 0x100000, 0x100001][(k % 4) as usize];
+    for o in opnds {
+        let (segreg, off): (&str, u32) = match o {
+            Opnd::Mem { seg, base, index, disp, .. } => {
+                let sr: &str = if !seg.is_empty() { seg } else if *base == "bp" { "ss" } else { "ds" };
+                let mut off = (*disp as i64).rem_euclid(65536) as u32;
+                if !base.is_empty() { off = (off + r.get(base) as u32) % 65536; }
+                if !index.is_empty() { off = (off + r.get(index) as u32) % 65536; }
+                // nudge a register of the operand so that the offset gets the low nibble of the target
+                let want = target % 16;
+                let delta = (want + 16 - off % 16) % 16;
+                let tweak: &str = if !index.is_empty() { index } else { base };
+                if !tweak.is_empty() && delta != 0 {
+                    r.set(tweak, r.get(tweak).wrapping_add(delta as u16));
+                    off = (off + delta) % 65536;
+                }
+                (sr, off)
+            }
+            Opnd::Label { off, .. } => ("ds", *off),
+            _ => continue,
+        };
+        // a label's offset cannot be nudged: take the target its low nibble allows
+        let target = if matches!(o, Opnd::Label { .. }) { match off % 16 { 15 => 0xFFFFF, 14 => 0xFFFFE, 0 => 0x100000, 1 => 0x100001, _ => target } } else { target };
+        if target >= off && (target - off) % 16 == 0 && (target - off) / 16 <= 0xFFFF {
+            r.set(segreg, ((target - off) / 16) as u16);
+        }
+        break;
+    }
+    r
+}
+
+
+/// PUSH / POP of a memory operand (bracketed or data label): SS:SP moved so that the stack word (the new top for
+/// PUSH, the current top for POP) lies -2 .. 2 bytes from the operand's word: the two words then overlap or touch.
+pub fn stack_place(ins: &Ins, regs: &Regs, k: u64) -> Regs {
+    let (o, is_push) = match ins {
+        Ins::Push { src } => (src, true),
+        Ins::Pop { dst } => (dst, false),
+        _ => return *regs,
+    };
+    let mut r = *regs;
+    let (segreg, off): (&str, u32) = match o {
+        Opnd::Mem { seg, base, index, disp, .. } => {
+            let sr: &str = if !seg.is_empty() { seg } else if *base == "bp" { "ss" } else { "ds" };
+            let mut off = (*disp as i64).rem_euclid(65536) as u32;
+            if !base.is_empty() { off = (off + r.get(base) as u32) % 65536; }
+            if !index.is_empty() { off = (off + r.get(index) as u32) % 65536; }
+            (sr, off)
+        }
+        Opnd::Label { off, .. } => ("ds", *off),
+        _ => return r,
+    };
+    if segreg == "ss" {
+        return r; // moving SS would move the operand as well
+    }
+    let mb: i64 = 1 << 20;
+    let a = (r.get(segreg) as i64 * 16 + off as i64) % mb;
+    let d = [-1i64, 0, 1, -2, 2][(k % 5) as usize];
+    let t = (a + d).rem_euclid(mb) as u32;
+    let mut ss = t / 16;
+    if ss >= 0x100 && k % 2 == 0 {
+        ss -= 0x100;
+    }
+    let top = (t - ss * 16) as u16;
+    r.set("ss", ss as u16);
+    r.set("sp", if is_push { top.wrapping_add(2) } else { top });
+    r
+}
+
+static RUNS: std::sync::atomic::AtomicU64 = std::sync::atomic::AtomicU64::new(0);
+/// false while a generator lays its operands out itself (run_one then leaves the registers alone)
+pub static PLACE: std::sync::atomic::AtomicBool = std::sync::atomic::AtomicBool::new(true);
+
 pub fn run_one(
     asm: &Asm,
     mach: &mut Mach,
@@ -281,6 +367,20 @@ pub fn run_one(
     stack: &[usize],
 ) -> Vec<Value> {
     let mut evs = Vec::new();
+    // every fourth single-instruction case (every second one with a data-label operand, whose offset cannot be
+    // nudged): the memory operand is moved onto the end of the 1 MB space (see edge_place)
+    // (the decision is a hash of the call number: generators walk fixed-length lists, a plain period would always
+    // pick the same list positions)
+    let n = RUNS.fetch_add(1, std::sync::atomic::Ordering::Relaxed);
+    let h = (n.wrapping_add(1).wrapping_mul(0x9E37_79B9_7F4A_7C15) >> 29) as u64;
+    let has_label = format!("{:?}", ins).contains("Label {");
+    let placed;
+    let on = PLACE.load(std::sync::atomic::Ordering::Relaxed);
+    let edge = on && (h % 4 == 3 || (has_label && h % 4 == 1));
+    let regs = if edge { placed = edge_place(ins, regs, h / 4); &placed } else { regs };
+    // two in five PUSH / POP of a memory operand: the stack word is laid over or next to the operand's word
+    let stacked;
+    let regs = if on && !edge && matches!(ins, Ins::Push { .. } | Ins::Pop { .. }) && (h / 4) % 5 < 4 { stacked = stack_place(ins, regs, h / 20); &stacked } else { regs };
     match assemble_ins(asm, ins, sp) {
         Err((e, src)) => {
             evs.push(json!({"ev":"asmfail","ast":ins.to_json(),"src":src,"err":e}));
